@@ -295,7 +295,7 @@ public:
             const Expr* sub = strip(x->getSubExpr());
             if (sub && (isa<CXXConstructExpr>(sub) || isa<InitListExpr>(sub))) return E(sub);
             if (x->getCastKind() == CK_UserDefinedConversion || x->getCastKind() == CK_ConstructorConversion) return E(sub);
-            return json::Array{"cast", typeStr(x->getType()), E(x->getSubExpr())};
+            return json::Array{"cast", typeStr(x->getType()), E(x->getSubExpr()), typeStr(x->getSubExpr()->IgnoreParenImpCasts()->getType().getCanonicalType()), typeStr(x->getType().getCanonicalType())};
         }
         if (auto* x = dyn_cast<CXXOperatorCallExpr>(e)) {
             auto k = x->getOperator();
